@@ -411,6 +411,7 @@ func main() {
 	writeConsts(byName, get, filepath.Join(*out, "Consts.lean"))
 	writeEffects(pkgs, funcs, filepath.Join(*out, "Effects.lean"))
 	writeCode(funcs, filepath.Join(*out, "Code.lean"))
+	writeErrSites(funcs, filepath.Join(*out, "ErrSites.lean"))
 	if *facts != "" {
 		writeFacts(funcs, *facts)
 	}
